@@ -33,7 +33,7 @@ def prevote (s : State) (feeder validator : String) (hash : Str) (round : Nat) :
     match s.os.round with
     | none => ⟨s, .err⟩
     | some ri =>
-      if ri.id = round ∧ (s.h : Int) ≤ ri.prevoteEnd then
+      if ri.id = round ∧ (s.h : Int) ≤ ri.prevoteEnd ∧ validUtf8 hash = true then
         ⟨{ s with os := { s.os with prevotes := alSet s.os.prevotes validator hash } }, .ok ""⟩
       else ⟨s, .err⟩
   | _, _ => ⟨s, .err⟩
